@@ -45,6 +45,8 @@ def helper_module():
     for name, (mut, probe) in CHANNELS.items():
         parts.append("function e.mutate_%s(frame) %s return 'm' end" % (name, mut))
         parts.append("function e.probe_%s(frame) return %s end" % (name, probe))
+    # runs for a good second of wall-clock time (far inside the default limit) and millions of VM instructions
+    parts.append("function e.longish(frame) local t0 = os.time() local n = 0 while os.time() - t0 < 2 do n = n + 1 end return 'finished' end")
     parts.append("function e.reqglobal(frame) return require('Module:gstate').get() end")
     parts.append("return e")
     return "\n".join(parts)
@@ -68,6 +70,7 @@ PAGES = {
     "nw_in_template": "{{nw|p}} and <nowiki>''q''</nowiki>",
     "nw_in_template2": "<nowiki>first</nowiki>{{nw}}{{a|<nowiki>|</nowiki>}}",
     "open_pre": "an example:\n<pre>\nfoo(bar)\n",
+    "inv_longish": "{{#invoke:h|longish}}",
     # nested far beyond what the parser can follow: the call raises RecursionError (or reports the depth limit); whatever it
     # was in the middle of must not be left behind for the next page
     "too_deep": "{{a|" * 600 + "x" + "}}" * 600,
@@ -88,6 +91,8 @@ OTHER_CTX = {
 
 
 OPTION_OPS = {
+    "expand_timeout_half_second": ("expand", {"timeout": 0.5}),
+    "expand_timeout_one_second": ("expand", {"timeout": 1}),
     "parse_pre_expand": ("parse", {"pre_expand": True}),
     "parse_additional_empty": ("parse", {"additional_expand": set()}),
     "parse_additional_a": ("parse", {"additional_expand": {"a"}}),
@@ -109,7 +114,11 @@ def events(tier):
     # the rarely used option combinations of parse() / expand(): whatever they set up for themselves must be gone afterwards
     for p in ("templates", "nw_in_template"):
         for op in OPTION_OPS:
-            ev.append(("page", p, op))
+            if not op.startswith("expand_timeout"):
+                ev.append(("page", p, op))
+    # a limit given to one call belongs to that call
+    ev.append(("page", "inv_ok", "expand_timeout_half_second"))
+    ev.append(("page", "inv_ok", "expand_timeout_one_second"))
     # a further call on the SAME page (no start_page in between): what one parse()/expand() call sets up for itself must be
     # gone when the next one starts (the messages of the page accumulate, so only result and path are compared)
     for p in ("soup1", "soup2", "deflist", "open_pre"):
@@ -260,6 +269,8 @@ def work(payload, skip, report):
                 last = hist[-1]
                 if last[0] not in ("page", "same_page"):
                     continue   # only page events are observed
+                if any(e[:2] == ("page", "inv_longish") for e in hist[:-1]):
+                    continue   # (two seconds each: only observed, never used as history)
                 report(i)
                 i += 1
                 got = in_child(run_history, dbpath, hist)
